@@ -15,7 +15,7 @@ class C09(WigBedProp):
             "with span containment, every block a zlib stream within the advertised buffer holding ≤ itemsPerSlot items of one "
             "chromosome, data count, total summary and zoom records recomputed from the decoded data) and its decoded records "
             "must equal the input; every uncompressed file is also judged by the Lean certificate (wfFile) and the two judges "
-            "must agree. Non-trivial = file with several sections, several chromosomes or at least one zoom level")
+            "must agree; plus files with 257–520 chromosomes (more than the default block size of the chromosome tree and the indexes). Non-trivial = file with several sections, several chromosomes or at least one zoom level")
 
     def cases(self, rng, tier):
         n = 2500 if tier == "thorough" else 240
@@ -40,6 +40,21 @@ class C09(WigBedProp):
             tags.add(kind)
             tags.add("zooms_" + str(o["zooms"]).split(",")[0])
             out.append(CaseT(f"f{k}", kind, [], [bbgen.opt_line(o)] + lines, self.common_tags(o, names, data, tags)))
+        # more chromosomes than the default block size of the chromosome tree and of the indexes (256)
+        for k2, kind in enumerate(("wig", "bed") if tier != "thorough" else ("wig", "bed", "wig", "bed")):
+            r = rng.fork(f"manychroms{k2}")
+            nch = r.choice([257, 300, 520])
+            names = [f"scaffold_{i:04d}" for i in range(nch)]
+            sizes = {n: 1000 + i for i, n in enumerate(names)}
+            o = bbgen.gen_options(r, tier)
+            o.update({"bs": r.choice([256, 256, 5]), "src": r.choice(["iter", "file"]), "sort": "all"})
+            if kind == "wig":
+                data = {n: [(5 + i % 7, 20 + i % 11, bbgen.f32bits(float(1 + i % 5)))] + ([(40, 45, bbgen.f32bits(2.0))] if i % 3 == 0 else []) for i, n in enumerate(names)}
+                lines = bbgen.wig_lines(names, sizes, data)
+            else:
+                data = {n: [(5 + i % 7, 30 + i % 11, "e%d" % i)] + ([(12, 45, "f")] if i % 3 == 0 else []) for i, n in enumerate(names)}
+                lines = bbgen.bed_lines(names, sizes, data)
+            out.append(CaseT(f"many{k2}", kind, [], [bbgen.opt_line(o)] + lines, self.common_tags(o, names, data, {kind, "more_chromosomes_than_block_size"})))
         return out
 
     def nontrivial(self, case, il):
